@@ -420,7 +420,9 @@ class AbstractCircuit(abc.ABC):
             end_moment_index = len(self.moments)
 
         if max_distance is None:
-            max_distance = len(self.moments)
+            # No limit: every moment before the end index, including an end index past the
+            # end of the circuit (the overshoot is subtracted again below).
+            max_distance = max(end_moment_index, len(self.moments))
         elif max_distance < 0:
             raise ValueError(f'Negative max_distance: {max_distance}')
         else:
